@@ -39,8 +39,8 @@ func aliasListener(p *Prog, r *Result, rulePublish, ruleWrite, ruleEntry string)
 				where := l.p.Pos(ev.Instr.Pos())
 				switch {
 				case rulePublish != "" && ev.Struct == a.Search && ev.Field == a.SearchFields:
-					if ev.VNil != triNo {
-						l.bad(rulePublish, fn, "result slice stored in a Search is non-nil", "a Search can be given a nil result slice (e.g. append(nil, empty...)): the refinements use 'constraint != nil' to mean 'restrict to the previous result', so And on an empty result would run unconstrained and return (or delete) everything that matches its own comparison", where, x, st, ev.Instr)
+					if ev.VNil != triNo && ev.VTags&TSearchFields == 0 {
+						l.bad(rulePublish, fn, "result slice stored in a Search is non-nil", "a Search can be given a nil result slice (e.g. append(nil, empty...)): the refinements use 'constraint != nil' to mean 'restrict to the previous result', so And on an empty result would run unconstrained and return (or delete) everything that matches its own comparison (a value derived from another Search's result slice is accepted by induction)", where, x, st, ev.Instr)
 					} else {
 						l.ok(rulePublish, fn, "result slice stored in a Search is non-nil", where)
 					}
@@ -196,7 +196,13 @@ func checkOrDedup(p *Prog, r *Result, rule string) {
 		return
 	}
 	found := false
-	for _, lp := range naturalLoops(or) {
+	var scope []natLoop
+	for _, f := range calleesWithin(p, or, 1) {
+		if f == or || (f.Signature.Recv() == nil || named(recvType(f)) == p.A.Search) && !hasSearchSig(f) {
+			scope = append(scope, naturalLoops(f)...)
+		}
+	}
+	for _, lp := range scope {
 		for _, b := range lp.blocks {
 			for _, in := range b.Instrs {
 				call, ok := in.(*ssa.Call)
@@ -212,19 +218,27 @@ func checkOrDedup(p *Prog, r *Result, rule string) {
 					if !ok {
 						continue
 					}
-					cond := ifi.Cond
-					if ex, ok := cond.(*ssa.Extract); ok && ex.Index == 1 {
-						if lk, ok := ex.Tuple.(*ssa.Lookup); ok {
-							if mt, ok := lk.X.Type().Underlying().(*types.Map); ok {
-								if kb, ok := mt.Key().Underlying().(*types.Basic); ok && kb.Kind() == types.Uint64 {
-									// the append must be on the miss edge
-									if d.Succs[1].Dominates(b) || d.Succs[1] == b {
-										if _, f, _ := loadedField(lk.Index); f == p.A.IFObjectId {
-											found = true
-										}
-									}
-								}
-							}
+					// the membership test: `_, ok := m[id]` or, for a map to bool that only ever stores true, `m[id]`
+					var lk *ssa.Lookup
+					if ex, ok := ifi.Cond.(*ssa.Extract); ok && ex.Index == 1 {
+						lk, _ = ex.Tuple.(*ssa.Lookup)
+					} else if l2, ok := ifi.Cond.(*ssa.Lookup); ok && !l2.CommaOk && onlyStoresTrue(l2.X) {
+						lk = l2
+					}
+					if lk == nil {
+						continue
+					}
+					mt, ok := lk.X.Type().Underlying().(*types.Map)
+					if !ok {
+						continue
+					}
+					if kb, ok := mt.Key().Underlying().(*types.Basic); !ok || kb.Kind() != types.Uint64 {
+						continue
+					}
+					// the append must be on the miss edge (the false successor of the membership test)
+					if miss := d.Succs[1]; (miss.Dominates(b) || miss == b) && len(miss.Preds) == 1 {
+						if _, f, _ := loadedField(lk.Index); f == p.A.IFObjectId {
+							found = true
 						}
 					}
 				}
@@ -236,6 +250,39 @@ func checkOrDedup(p *Prog, r *Result, rule string) {
 	} else {
 		r.Report(rule, FuncName(or), "union appends only entries whose object id is unmarked", Violated, "the union does not guard its append by a miss in a marking map keyed by object id: an object matching both sides would be returned twice", p.Pos(or.Pos()), nil, true)
 	}
+}
+
+// onlyStoresTrue: m is a local map[...]bool into which only the constant true is ever stored.
+func onlyStoresTrue(m ssa.Value) bool {
+	mt, ok := m.Type().Underlying().(*types.Map)
+	if !ok {
+		return false
+	}
+	if b, ok := mt.Elem().Underlying().(*types.Basic); !ok || b.Kind() != types.Bool {
+		return false
+	}
+	if _, ok := m.(*ssa.MakeMap); !ok {
+		return false
+	}
+	refs := m.Referrers()
+	if refs == nil {
+		return false
+	}
+	n := 0
+	for _, r := range *refs {
+		switch r := r.(type) {
+		case *ssa.MapUpdate:
+			c, ok := r.Value.(*ssa.Const)
+			if !ok || c.Value == nil || c.Value.String() != "true" {
+				return false
+			}
+			n++
+		case *ssa.Lookup, *ssa.DebugRef:
+		default:
+			return false // escapes: somebody else may store into it
+		}
+	}
+	return n > 0
 }
 
 // ---- C02 ------------------------------------------------------------------------------
@@ -411,16 +458,16 @@ func checkOperatorTables(p *Prog, c *Closures, r *Result, rule string) {
 		if fn == nil {
 			continue
 		}
-		if c.own[fn].Has(EErrOperator) {
+		if c.Of(fn).Has(EErrOperator) {
 			r.Report(rule, FuncName(fn), "default arm reports ErrUnkownSearchOperator", Discharged, "", p.Pos(fn.Pos()), nil, true)
 		} else {
 			r.Report(rule, FuncName(fn), "default arm reports ErrUnkownSearchOperator", Violated, "an unknown operator is not reported with the operator sentinel on this path", p.Pos(fn.Pos()), nil, true)
 		}
 	}
 	// seven arms -> seven distinct range functions, each arm literal bound to its callee
-	if idx != nil {
+	if owner, _ := switchOwner(idx, 2); owner != nil {
 		arms := map[string]string{}
-		for _, b := range idx.Blocks {
+		for _, b := range owner.Blocks {
 			ifi, ok := b.Instrs[len(b.Instrs)-1].(*ssa.If)
 			if !ok {
 				continue
